@@ -272,7 +272,8 @@ func (b *Biscuit) Seal(rng io.Reader) (*Biscuit, error) {
 
 	toSignAlgorithm := make([]byte, 4)
 	binary.LittleEndian.PutUint32(toSignAlgorithm[0:], uint32(lastBlock.NextKey.Algorithm.Number()))
-	toSign := append(lastBlock.Block[:], toSignAlgorithm...)
+	// copy: appending to the shared block bytes would write into their spare capacity
+	toSign := append(append([]byte{}, lastBlock.Block...), toSignAlgorithm...)
 	toSign = append(toSign, lastBlock.NextKey.Key[:]...)
 	toSign = append(toSign, lastBlock.Signature[:]...)
 
@@ -348,7 +349,8 @@ func (b *Biscuit) authorizerFor(root ed25519.PublicKey, opts ...AuthorizerOption
 	algorithm := make([]byte, 4)
 	binary.LittleEndian.PutUint32(algorithm[0:], uint32(b.container.Authority.NextKey.Algorithm.Number()))
 
-	toVerify := append(b.container.Authority.Block[:], algorithm...)
+	// copy: appending to the shared block bytes would write into their spare capacity
+	toVerify := append(append([]byte{}, b.container.Authority.Block...), algorithm...)
 	toVerify = append(toVerify, b.container.Authority.NextKey.Key[:]...)
 
 	if ok := ed25519.Verify(currentKey, toVerify, b.container.Authority.Signature); !ok {
@@ -367,7 +369,7 @@ func (b *Biscuit) authorizerFor(root ed25519.PublicKey, opts ...AuthorizerOption
 
 		algorithm := make([]byte, 4)
 		binary.LittleEndian.PutUint32(algorithm[0:], uint32(block.NextKey.Algorithm.Number()))
-		toVerify := append(block.Block[:], algorithm...)
+		toVerify := append(append([]byte{}, block.Block...), algorithm...)
 		toVerify = append(toVerify, block.NextKey.Key[:]...)
 
 		if ok := ed25519.Verify(currentKey, toVerify, block.Signature); !ok {
@@ -410,7 +412,7 @@ func (b *Biscuit) authorizerFor(root ed25519.PublicKey, opts ...AuthorizerOption
 
 			algorithm := make([]byte, 4)
 			binary.LittleEndian.PutUint32(algorithm[0:], uint32(lastBlock.NextKey.Algorithm.Number()))
-			toVerify := append(lastBlock.Block[:], algorithm...)
+			toVerify := append(append([]byte{}, lastBlock.Block...), algorithm...)
 			toVerify = append(toVerify, lastBlock.NextKey.Key[:]...)
 			toVerify = append(toVerify, lastBlock.Signature[:]...)
 
